@@ -91,22 +91,28 @@ type Sched struct {
 	fin     chan string
 
 	// configuration
-	LockPoints bool                    // mutex operations are schedule points (else they are free: one thread at a time)
-	Shared     map[*vhook.RWMutex]bool // mutexes whose guarded accesses are checked by the lockset monitor
-	UnlockPoints bool                  // also make every unlock a schedule point (redundant, for cross-checking)
-	MaxSteps   int                     // 0 = default 20000
-	Record     bool                    // keep Trace
-	OnStep     func()                  // called (by the dispatching thread) before every choice
+	LockPoints   bool                    // mutex operations are schedule points (else they are free: one thread at a time)
+	Shared       map[*vhook.RWMutex]bool // mutexes whose guarded accesses are checked by the lockset monitor
+	UnlockPoints bool                    // also make every unlock a schedule point (redundant, for cross-checking)
+	MaxSteps     int                     // 0 = default 20000
+	Record       bool                    // keep Trace
+	OnStep       func()                  // called (by the dispatching thread) before every choice
+
+	// WatchChan, when set (Pointer of a channel), makes the scheduler count the
+	// select grants in which a receive on that (closed) channel was ready but a
+	// different case was granted - Go's select may legitimately do that.
+	WatchChan uintptr
 
 	// results
-	Steps       int
-	Preemptions int
-	Trace       []Step
-	Violations  []string // lockset / unlock-of-unheld reports
-	Blocked     []string // on deadlock: what every live thread waits for
-	aborting    bool
-	lastStep    time.Time
-	wg          sync.WaitGroup
+	WatchSkipped int
+	Steps        int
+	Preemptions  int
+	Trace        []Step
+	Violations   []string // lockset / unlock-of-unheld reports
+	Blocked      []string // on deadlock: what every live thread waits for
+	aborting     bool
+	lastStep     time.Time
+	wg           sync.WaitGroup
 }
 
 func New(ch Chooser) *Sched {
@@ -486,6 +492,21 @@ func (s *Sched) dispatch(self *thread, ended bool) {
 			}
 		case opSelect:
 			t.rChosen = c.ci
+			if s.WatchChan != 0 && s.closed[s.WatchChan] {
+				for _, sel := range []struct {
+					th *thread
+					ci int
+				}{{t, c.ci}, {c.partner, c.pi}} {
+					if sel.th == nil {
+						continue
+					}
+					for j, cs := range sel.th.cs {
+						if k, ok := chanKey(cs.Chan); ok && k == s.WatchChan && cs.Dir == reflect.SelectRecv && j != sel.ci {
+							s.WatchSkipped++
+						}
+					}
+				}
+			}
 			if c.partner != nil {
 				p := c.partner
 				if t.cs[c.ci].Dir == reflect.SelectRecv {
@@ -527,6 +548,18 @@ func (s *Sched) park(kind opKind) *thread {
 func (s *Sched) Select(cases []reflect.SelectCase) (int, reflect.Value, bool) {
 	if s.aborting {
 		runtime.Goexit()
+	}
+	// reflect.Select validates send values before it blocks; mirror that in the
+	// caller's own goroutine so that the panic meets the interpreter's recover
+	for _, c := range cases {
+		if c.Dir == reflect.SelectSend && c.Chan.IsValid() && c.Chan.Kind() == reflect.Chan && !c.Chan.IsNil() {
+			if !c.Send.IsValid() {
+				panic("reflect.Select: SendDir case missing Send value")
+			}
+			if !c.Send.Type().AssignableTo(c.Chan.Type().Elem()) {
+				panic("reflect.Select: value of type " + c.Send.Type().String() + " is not assignable to type " + c.Chan.Type().Elem().String())
+			}
+		}
 	}
 	t := s.park(opSelect)
 	t.cs = cases
